@@ -114,12 +114,14 @@ def lastOf : List (Nat × Nat) → Option (Nat × Nat)
 /-! ## Layout -/
 
 /-- `find_smallest_adequate_hole`: least size ≥ `need`; among equal sizes the first inserted -/
+def bestFitStep (need : Nat) (acc : Option (Nat × Nat)) (h : Nat × Nat) : Option (Nat × Nat) :=
+  if h.2 < need then acc
+  else match acc with
+    | none => some h
+    | some b => if h.2 < b.2 then some h else some b
+
 def bestFit (holes : List (Nat × Nat)) (need : Nat) : Option Nat :=
-  (holes.foldl (fun (acc : Option (Nat × Nat)) h =>
-      if h.2 < need then acc
-      else match acc with
-        | none => some h
-        | some b => if h.2 < b.2 then some h else some b) none).map (·.1)
+  (holes.foldl (bestFitStep need) none).map (·.1)
 
 /-- `remove_or_compress_hole` on the hole list -/
 def removeOrCompress (holes : List (Nat × Nat)) (start by_ : Nat) : Except ErrKind (List (Nat × Nat)) :=
@@ -486,6 +488,12 @@ def takeAllDirty (s : Db) : Db :=
   { s with slots := s.slots.map (fun o => o.map (fun sl =>
       if sl.dmin < sl.dmax then { sl with dmin := USIZE_MAX, dmax := 0 } else sl)) }
 
+/-- `mark_clean` on one selected region -/
+def markCleanStep (s : Db) (x : Nat × Slot × Option (Nat × Nat)) : Db :=
+  match s.slot? x.1 with
+  | some sl => s.setSlot x.1 (some { sl with st := .clean })
+  | none => s
+
 /-- `Database::flush` -/
 def flush (s : Db) : Db × Out :=
   let dirty := s.flushCandidates
@@ -502,10 +510,7 @@ def flush (s : Db) : Db × Out :=
     let s := s.emit (.sync .data)
     let s := s.emit (.sync .regions)
     -- mark_clean on every selected region
-    let s := dirty.foldl (fun (s : Db) x =>
-      match s.slot? x.1 with
-      | some sl => s.setSlot x.1 (some { sl with st := .clean })
-      | none => s) s
+    let s := dirty.foldl markCleanStep s
     ({ s with holes := promote s.holes s.pending, pending := [] }, .okN dirty.length)
 
 /-- `Region::flush` -/
